@@ -237,3 +237,238 @@ Proof.
     repeat constructor; try (intros k E; discriminate E); vm_compute; discriminate. }
   split; [repeat constructor|]. repeat split; vm_compute; reflexivity.
 Qed.
+
+(* ================================================================== strengthening round 4
+   Loops nested in — and around — the constructs Model.Loop left outside: `switch` (both lowerings: binary
+   search tree and macro dispatch) and `execute … run { … }` blocks (Model.LoopSwitch).
+
+   - `xcompile_stmts` is the statement-by-statement lowering of Model.Loop extended by XSwitch / XRun; the case
+     bodies and blocks are lowered like function bodies, before the construct takes its own number.
+   - Case bodies are ANY command lists, in particular the lowered code of loops, which need not terminate from
+     every state: the switch theorems below are therefore EQUIVALENCES between relations (property C06's
+     theorems are about total, functional bodies and give one direction only).
+   - `bst_rel` / `macro_rel`: the source-level reading of the two lowerings (the copy `__switch__N` / the found
+     flag and the storage key, then the lines of the selected case — the one labelled with the switched value,
+     else `default`, else nothing). *)
+From JMCV Require Import Model.LoopSwitch Proofs.LoopSwitch.
+From JMCV Require Model.Switch Proofs.Switch.
+
+(* On the statement trees of Model.Loop the extended lowering is Model.Loop's lowering: every theorem above
+   speaks about xcompile_stmts as well. *)
+Theorem C05_switch_model_conservative :
+  forall nm cf l,
+    (forall a, xcompile_stmts nm cf (embed_stmts l) a =
+               match compile_stmts nm l (xa a) with Some (lines, r) => Some (lines, set_a a r) | None => None end) /\
+    xcompile_body nm cf (embed_stmts l) = compile_body nm l.
+Proof. exact (fun nm cf l => conj (xcompile_embed nm cf l) (xcompile_body_embed nm cf l)). Qed.
+Print Assumptions C05_switch_model_conservative.
+
+(* Binary search tree (pack_format < 16, #forcebst): for every start label (negative, zero, positive), every
+   number of cases, ANY case bodies that leave the private copy `__switch__N` alone, every function table
+   holding the tree and every state: the emitted lines terminate in st' iff the lines of case v - start do
+   (from the state after the copy) when start <= v < start + n, and nothing else runs. *)
+Theorem C05_loop_in_bst_case :
+  forall nm ft env group x bodies start guard1 pc sid cmds fs pc' sid',
+    Switch.parse_switch_bst nm group x bodies start guard1 pc sid = Switch.Ok (cmds, fs, pc', sid') ->
+    guard1 = true \/ (2 <= length bodies)%nat ->
+    (forall f b, In (f, b) fs -> ft f = Some b) ->
+    (forall k st st', runs ft env (nth k bodies []) st st' ->
+                      sc st' (Switch.tmp_score nm sid) = sc st (Switch.tmp_score nm sid)) ->
+    forall st st', runs ft env cmds st st' <-> bst_rel ft env (Switch.tmp_score nm sid) x bodies start st st'.
+Proof. exact parse_switch_bst_iff. Qed.
+Print Assumptions C05_loop_in_bst_case.
+
+(* Macro dispatch (pack_format >= 16): any labels (unsorted, sparse, negative, repeated, `default` anywhere),
+   ANY case bodies, no side condition. *)
+Theorem C05_loop_in_macro_case :
+  forall nm ft env group x cases pc cmds fs pc',
+    Switch.parse_switch_macro nm group x cases pc = (cmds, fs, pc') ->
+    Proofs.Switch.ft_agrees_macro nm group pc ft fs ->
+    forall st st', runs ft env cmds st st' <-> macro_rel nm ft env x cases st st'.
+Proof. exact parse_switch_macro_iff. Qed.
+Print Assumptions C05_loop_in_macro_case.
+
+(* The switch statement as Model.LoopSwitch lowers it (switch(): label rule, strategy choice, numbering). *)
+Theorem C05_switch_statement_relational :
+  forall nm cf ft env x bodies a cmds a',
+    switch_code nm cf x bodies a = Some (cmds, a') ->
+    exists fs,
+      a' = mkX (xa a) (x_anon a) (x_afns a) (x_pc a') (x_sid a') (x_sw a ++ [(x_pc a, fs)]) /\
+      x_sid a' = (if Switch.is_macro cf then x_sid a else (x_sid a + 1)%Z) /\
+      (Switch.is_macro cf = false ->
+       map fst bodies = map Switch.LNum (Proofs.Switch.consec (start_of bodies) (length bodies))) /\
+      (sw_ok nm cf ft (x_pc a, fs) ->
+       (Switch.is_macro cf = false ->
+        forall k st st', runs ft env (nth k (map snd bodies) []) st st' ->
+                         sc st' (Switch.tmp_score nm (x_sid a)) = sc st (Switch.tmp_score nm (x_sid a))) ->
+       forall st st', runs ft env cmds st st' <-> switch_lines_rel nm cf ft env x bodies (x_sid a) st st').
+Proof. exact switch_code_iff. Qed.
+Print Assumptions C05_switch_statement_relational.
+
+(* "The loop is followed by the rest": in ANY lines that contain the caller of a lowered loop — a function
+   body, a branch, a case body, a block, another loop's body — what stands before the loop runs once, the loop
+   iterates exactly as the JavaScript unfolding says, and what FOLLOWS it runs exactly once, from the state the
+   loop ended in. *)
+Theorem C05_while_followed_by_rest :
+  forall nm ft env pre post c body k caller fs,
+    while_code nm c body k = (caller, fs) -> installed ft fs ->
+    forall st st', runs ft env (pre ++ caller ++ post) st st' <->
+      exists s1 s2 n, runs ft env pre st s1 /\ loop_sem ft env c (runs ft env body) s1 n s2 /\ runs ft env post s2 st'.
+Proof. exact while_followed. Qed.
+Print Assumptions C05_while_followed_by_rest.
+
+Theorem C05_dowhile_followed_by_rest :
+  forall nm ft env pre post c body k caller fs,
+    dowhile_code nm c body k = (caller, fs) -> installed ft fs ->
+    forall st st', runs ft env (pre ++ caller ++ post) st st' <->
+      exists s1 s2 n, runs ft env pre st s1 /\ dowhile_sem ft env c body s1 n s2 /\ runs ft env post s2 st'.
+Proof. exact dowhile_followed. Qed.
+Print Assumptions C05_dowhile_followed_by_rest.
+
+Theorem C05_for_followed_by_rest :
+  forall nm ft env pre post init c step body k caller fs,
+    for_code nm init c step body k = (caller, fs) -> installed ft fs ->
+    forall st st', runs ft env (pre ++ caller ++ post) st st' <->
+      exists s1 s2 n, runs ft env pre st s1 /\ for_sem ft env init c step body s1 n s2 /\ runs ft env post s2 st'.
+Proof. exact for_followed. Qed.
+Print Assumptions C05_for_followed_by_rest.
+
+(* execute if score e matches 1.. run { lines }: the block's lines (a loop and what follows it, …) run iff
+   the guard holds, inlined after `run` or through an anonymous function *)
+Theorem C05_block_runs_its_lines :
+  forall nm ft env e lines a caller a',
+    run_code nm e lines a = Some (caller, a') ->
+    (exists new, x_afns a' = x_afns a ++ new /\ xa a' = xa a /\ x_sw a' = x_sw a /\ x_sid a' = x_sid a /\ x_pc a' = x_pc a) /\
+    (installed ft (x_afns a') ->
+     forall st st', runs ft env caller st st' <->
+                    if tests_hold st (run_guard_tests e) then runs ft env lines st st' else st' = st).
+Proof. exact run_code_iff. Qed.
+Print Assumptions C05_block_runs_its_lines.
+
+(* ------------------------------------------------------------------ whole statement trees with switch and blocks
+
+   `xsem_stmts prog sid` is the source meaning of a statement tree (sid = the number the next binary search
+   tree takes; 0 for a whole function body compiled first):
+     - basic commands mean what Minecraft does; chains and loops mean what they mean in C05_any_nesting_depth
+       (first true condition in source order; the JavaScript unfolding with exactly n iterations);
+     - XSwitch x cases means `switch_sem`: the scratch writes of the dispatcher (binary search tree: the copy
+       `__switch__N = x`; macro dispatch: the found flag when there is a `default`, the key in storage), then
+       the meaning of the case selected at source level (Proofs.Switch.select_entry: the last case labelled with
+       the value of x — negative, zero or positive —, else `default`, else nothing), from the state after those
+       writes; in macro mode with a `default`, the found flag is set after a labelled case;
+     - XRun e body means: body if e >= 1, nothing otherwise;
+     - a statement list means its statements one after the other: what FOLLOWS a loop, a switch or a block
+       starts in the state that statement ended in and runs exactly once.
+   Hypotheses: ft holds the functions the lowering stored (`tables_ok`: for a macro switch also "nothing else
+   under the dispatcher's prefix", as in C06); chain conditions leave the if/else flag alone when tested; and,
+   under the binary search tree only, the leaves (basic commands, condition helpers, for-initialisers / steps)
+   do not write a `__switch__N` score, nor is one switched on (`xkeeps_stmts`; `xsimple_stmts` is a computable
+   sufficient condition). *)
+Theorem C05_any_nesting_with_switch :
+  forall nm cf ft env prog lines a',
+    xcompile_stmts nm cf prog xalloc0 = Some (lines, a') ->
+    NoDup (map fst (fns (xa a'))) /\
+    (tables_ok nm cf ft a' -> xkeeps_stmts nm cf ft env prog ->
+     forall st st', runs ft env lines st st' <-> xsem_stmts nm cf ft env prog 0 st st').
+Proof. exact xcompile_body_correct. Qed.
+Print Assumptions C05_any_nesting_with_switch.
+
+Theorem C05_any_nesting_with_switch_simple :
+  forall nm cf ft env prog lines a',
+    xcompile_stmts nm cf prog xalloc0 = Some (lines, a') ->
+    tables_ok nm cf ft a' -> xsimple_stmts nm prog = true ->
+    forall st st', runs ft env lines st st' <-> xsem_stmts nm cf ft env prog 0 st st'.
+Proof. exact xcompile_body_correct_simple. Qed.
+Print Assumptions C05_any_nesting_with_switch_simple.
+
+(* what a switch statement means (the definition the theorem uses), spelled out *)
+Theorem C05_switch_meaning :
+  forall nm cf x labels (R : list rel) sid st st',
+    switch_sem nm cf x labels R sid st st' <->
+    let hd := existsb Switch.is_default labels in
+    match Proofs.Switch.select_entry labels (sw_value nm cf x hd st) with
+    | Some k => exists s, nth k R norel (sw_enter nm cf x hd sid st) s /\
+                          st' = sw_leave nm cf hd (nth k labels Switch.LDefault) s
+    | None => st' = sw_enter nm cf x hd sid st
+    end.
+Proof. exact (fun nm cf x labels R sid st st' => iff_refl _). Qed.
+Print Assumptions C05_switch_meaning.
+
+(* a statement only writes the `__switch__N` copies of its own switch statements: this is why a loop body or
+   a case body holding inner switches cannot disturb the binary search of an enclosing one *)
+Theorem C05_switch_copies_are_private :
+  forall nm cf ft env, Switch.is_macro cf = false ->
+    forall l sid, xkeeps_stmts nm cf ft env l ->
+      forall k, ~ (sid <= k < sid_stmts cf l sid)%Z ->
+        forall st st', xsem_stmts nm cf ft env l sid st st' ->
+                       sc st' (Switch.tmp_score nm k) = sc st (Switch.tmp_score nm k).
+Proof. exact (fun nm cf ft env H => proj1 (proj2 (xsem_frame nm cf ft env H))). Qed.
+Print Assumptions C05_switch_copies_are_private.
+
+(* ---- non-vacuity: the shape the fourth bug-seeding round hid a defect behind ----
+   switch ($x) { case -1: while ($L < 2) { say "b"; $L += 1; } say "after"; break;  case 0: say "z"; }  say "end";
+   under both lowerings: the model lowers it, the emitted table satisfies the hypotheses, and running the
+   emitted lines says b b after end for $x = -1 ("after" exactly once, after the loop), z end for 0, end for 5. *)
+Definition r4_x := ex_v "$x".
+Definition r4_L := ex_v "$L".
+Definition r4_c : cond := mkCond [] [(true, Matches r4_L (To 1))].
+Definition r4_prog : xstmts :=
+  XCons (XSwitch r4_x
+           (XKCons (Switch.LNum (-1))
+                   (XCons (XWhile r4_c (XCons (XCmd (CSay "b")) (XCons (XCmd (CAdd r4_L 1)) XNil)))
+                          (XCons (XCmd (CSay "after")) XNil)) true
+           (XKCons (Switch.LNum 0) (XCons (XCmd (CSay "z")) XNil) false XKNil)))
+        (XCons (XCmd (CSay "end")) XNil).
+Definition r4_cfg (macro : bool) : Switch.cfg := Switch.mkCfg (if macro then 48 else (-1))%Z false.
+Definition r4_alloc (macro : bool) : xalloc :=
+  match xcompile_stmts default_names (r4_cfg macro) r4_prog xalloc0 with Some (_, a) => a | None => xalloc0 end.
+Definition r4_lines (macro : bool) : list cmd :=
+  match xcompile_stmts default_names (r4_cfg macro) r4_prog xalloc0 with Some (l, _) => l | None => [] end.
+Definition r4_ft (macro : bool) (f : string) : option (list cmd) :=
+  match flat_map (fun g => match Switch.fget_last (snd g) f with Some b => [b] | None => [] end) (x_sw (r4_alloc macro)) with
+  | b :: _ => Some b
+  | [] => lookup_fn (fns (xa (r4_alloc macro)) ++ x_afns (r4_alloc macro)) f
+  end.
+Definition r4_st (v : Z) : state :=
+  mkState (fun k => if score_eqb k r4_x then Some v else if score_eqb k r4_L then Some 0%Z else None) (fun _ => None) [].
+Definition r4_trace (macro : bool) (v : Z) : option (list event) :=
+  option_map (@tr) (exec_list (r4_ft macro) (fun _ s => s) 12 (r4_lines macro) (r4_st v)).
+
+Example C05_switch_nonvacuous_bst :
+  xcompile_stmts default_names (r4_cfg false) r4_prog xalloc0 = Some (r4_lines false, r4_alloc false) /\
+  length (r4_lines false) = 3%nat /\
+  tables_ok default_names (r4_cfg false) (r4_ft false) (r4_alloc false) /\
+  xsimple_stmts default_names r4_prog = true /\
+  r4_trace false (-1) = Some [ESay "end"; ESay "after"; ESay "b"; ESay "b"] /\
+  r4_trace false 0 = Some [ESay "end"; ESay "z"] /\
+  r4_trace false 5 = Some [ESay "end"].
+Proof.
+  split; [vm_compute; reflexivity|]. split; [vm_compute; reflexivity|]. split.
+  - unfold tables_ok. split; [|split].
+    + vm_compute. repeat constructor.
+    + vm_compute. repeat constructor.
+    + vm_compute. constructor; [|constructor]. intros f b H.
+      repeat (destruct H as [H|H]; [inversion H; subst; reflexivity|]). contradiction.
+  - repeat split; vm_compute; reflexivity.
+Qed.
+
+Example C05_switch_nonvacuous_macro :
+  xcompile_stmts default_names (r4_cfg true) r4_prog xalloc0 = Some (r4_lines true, r4_alloc true) /\
+  length (r4_lines true) = 3%nat /\
+  tables_ok default_names (r4_cfg true) (r4_ft true) (r4_alloc true) /\
+  xsimple_stmts default_names r4_prog = true /\
+  r4_trace true (-1) = Some [ESay "end"; ESay "after"; ESay "b"; ESay "b"] /\
+  r4_trace true 0 = Some [ESay "end"; ESay "z"] /\
+  r4_trace true 5 = Some [ESay "end"].
+Proof.
+  split; [vm_compute; reflexivity|]. split; [vm_compute; reflexivity|]. split.
+  - unfold tables_ok. split; [vm_compute; repeat constructor|]. split; [vm_compute; repeat constructor|].
+    set (a := r4_alloc true). vm_compute in a. subst a. cbn [x_sw]. constructor; [|constructor].
+    unfold sw_ok. cbn [fst snd r4_cfg]. change (Switch.is_macro (Switch.mkCfg 48 false)) with true. cbv iota.
+    split.
+    + intros f b H. unfold r4_ft. set (a := r4_alloc true). vm_compute in a. subst a. cbn [x_sw flat_map snd app].
+      rewrite H. reflexivity.
+    + intros w H. unfold r4_ft. set (a := r4_alloc true). vm_compute in a. subst a. cbn [x_sw flat_map snd app].
+      rewrite H. cbn. reflexivity.
+  - repeat split; vm_compute; reflexivity.
+Qed.
